@@ -111,8 +111,8 @@ Definition progs2 (a b : list op) (t : nat) : list op := match t with O => a | S
 
 (* two creators race, then an opener: one create succeeds, the other gets AlreadyExists, the opener gets the
    winner's settings *)
-Definition ex_race := run (step P9) (repeat 0 9 ++ repeat 1 9 ++ repeat 0 9 ++ repeat 1 40)%nat
-                          (init (progs2 [OCreate reqA] [OCreate reqB; OOpen reqU])).
+Definition race_sched : list nat := (repeat 0 9 ++ repeat 1 9 ++ repeat 0 9 ++ repeat 1 40)%nat.
+Definition ex_race := run (step P9) race_sched (init (progs2 [OCreate reqA] [OCreate reqB; OOpen reqU])).
 Example c06_nonvacuous :
   reachable (step P9) (init (progs2 [OCreate reqA] [OCreate reqB; OOpen reqU])) (fst ex_race) /\
   rets (snd (fst ex_race) 0%nat) = [ROk 0 (mk_cfg (defs PubSub) reqA KCreate)] /\
@@ -120,7 +120,7 @@ Example c06_nonvacuous :
   ncreates 0 (glog (fst (fst ex_race))) = 1%nat /\
   In (1%nat, KOpen, ROk 0%nat (mk_cfg (defs PubSub) reqA KCreate)) (glog (fst (fst ex_race))).
 Proof.
-  split; [eexists; reflexivity|]. vm_compute. repeat split; auto 10.
+  split; [exists race_sched; reflexivity|]. vm_compute. repeat split; auto 10.
 Qed.
 Print Assumptions c06_nonvacuous.
 
@@ -129,7 +129,7 @@ Example c06_incompatible_nonvacuous :
   let c := fst (run (step P9) (repeat 0 20 ++ repeat 1 7)%nat (init (progs2 [OCreate reqA] [OOpen reqB]))) in
   exists j x, at_pc (snd c 1%nat) = PRead j /\ get_inst (fst c) j = Some x /\
     open_check (i_cfg x) (the_req (snd c 1%nat)) KOpen = Some DoesNotSupportRequestedAmountOfPublishers.
-Proof. cbv zeta. exists 0%nat. eexists. vm_compute. repeat split. Qed.
+Proof. vm_compute. exists 0%nat. eexists. repeat split. Qed.
 Print Assumptions c06_incompatible_nonvacuous.
 
 (* ---- termination within the budget ---- *)
@@ -145,14 +145,16 @@ Definition c06_terminates_full : Prop :=
 
 (* witness 1: the creator stands between shm_open(O_CREAT|O_EXCL) and ftruncate of the dynamic config; the opener
    (budget T = 0) retries MappingSizeIsZero for ever: open_impl has no timeout check on that branch *)
-Definition spin_cfg := fst (run (step P0) (repeat 0 13)%nat (init (progs2 [OCreate reqA] [OOpen reqU]))).
+Definition spin_sched : list nat := repeat 0%nat 13.
+Definition spin_cfg := fst (run (step P0) spin_sched (init (progs2 [OCreate reqA] [OOpen reqU]))).
 Lemma c06_open_spin_refuted :
   forallb (fun k => negb (finished (fst (run (step P0) (repeat 1 k)%nat spin_cfg)) 1%nat)) (seq 0 (S (solo_bound P0))) = true.
 Proof. vm_compute. reflexivity. Qed.
 
 (* witness 2: create of a slice-payload service with max_nodes 0 panics (DynamicConfig::init) and leaves the
    dynamic config segment behind *)
-Definition panic_cfg := fst (run (step P9) (repeat 0 20)%nat (init (progs2 [OCreate reqSlice0] []))).
+Definition panic_sched : list nat := repeat 0%nat 20.
+Definition panic_cfg := fst (run (step P9) panic_sched (init (progs2 [OCreate reqSlice0] []))).
 Lemma c06_create_panics :
   rets (snd panic_cfg 0%nat) = [RPanic] /\ listing (fst panic_cfg) = (0, 1, 0)%nat /\ at_pc (snd panic_cfg 0%nat) = Idle.
 Proof. vm_compute. auto. Qed.
@@ -161,7 +163,7 @@ Theorem c06_terminates_refuted : ~ c06_terminates_full.
 Proof.
   intros H.
   destruct (H P9 (progs2 [OCreate reqSlice0] []) panic_cfg 0%nat) as [_ Hp].
-  - eexists; reflexivity.
+  - exists panic_sched; reflexivity.
   - intros [|[|t']]; cbn; auto.
   - apply Hp. destruct c06_create_panics as (E & _). rewrite E. left; auto.
 Qed.
@@ -174,7 +176,7 @@ Theorem c06_terminates_spin_refuted :
 Proof.
   intros H.
   destruct (H P0 (progs2 [OCreate reqA] [OOpen reqU]) spin_cfg 1%nat) as (k & Hk & Hf).
-  - eexists; reflexivity.
+  - exists spin_sched; reflexivity.
   - intros [|[|t']]; cbn; auto.
   - pose proof c06_open_spin_refuted as Hs. rewrite forallb_forall in Hs.
     specialize (Hs k). rewrite Hf in Hs. cbn in Hs. assert (false = true) by (apply Hs; apply in_seq; lia). discriminate.
@@ -206,11 +208,12 @@ Definition c06_no_spurious_corruption_full : Prop :=
 
 (* witness: blackboard creator stopped after unlocking the static config (its resources are created next); the
    opener opens the resources before the dynamic config and does not wait for them *)
-Definition bb_cfg := fst (run (step P9) (repeat 0 12 ++ repeat 1 30)%nat (init (progs2 [OCreate reqBb] [OOpen reqBb]))).
+Definition bb_sched : list nat := (repeat 0 12 ++ repeat 1 30)%nat.
+Definition bb_cfg := fst (run (step P9) bb_sched (init (progs2 [OCreate reqBb] [OOpen reqBb]))).
 Theorem c06_no_spurious_corruption_refuted : ~ c06_no_spurious_corruption_full.
 Proof.
   intros H. apply (H P9 (progs2 [OCreate reqBb] [OOpen reqBb]) (fst bb_cfg) (snd bb_cfg) 1%nat).
-  - eexists. unfold bb_cfg. destruct (run _ _ _) as [[g ls] tr]. reflexivity.
+  - exists bb_sched. unfold bb_cfg. destruct (run _ _ _) as [[g ls] tr]. reflexivity.
   - vm_compute. left; reflexivity.
 Qed.
 Print Assumptions c06_no_spurious_corruption_refuted.
@@ -237,7 +240,7 @@ Proof.
   intros H.
   assert (Hq : quiescent (snd panic_cfg)) by (intros [|[|t]]; vm_compute; reflexivity).
   assert (Hr : reachable (step P9) (init (progs2 [OCreate reqSlice0] [])) (fst panic_cfg, snd panic_cfg)).
-  { eexists. unfold panic_cfg. destruct (run _ _ _) as [[g ls] tr]. reflexivity. }
+  { exists panic_sched. unfold panic_cfg. destruct (run _ _ _) as [[g ls] tr]. reflexivity. }
   assert (Hi : exists x, get_inst (fst panic_cfg) 0%nat = Some x /\ i_dy_linked x = true /\ i_members x = []).
   { eexists. vm_compute. repeat split. }
   destruct Hi as (x & Hx & Hl & Hm).
